@@ -511,4 +511,25 @@ def gen_scenarios(rng):
         ops.append({"op": "enqueue", "now": now, "enq": [_enq("late-b", body=71)]})
         ops.append({"op": "stats", "now": now})
         hs.append({"cfg": cfg, "ops": ops, "snap_every": 1, "c13_ok": True})
+    # S11: a depth limit in the hundreds under drop_oldest (the shipped default is 10000): the queue is filled to the limit, then single
+    #      enqueues and a small batch arrive - each stored message evicts exactly one oldest queued message, whatever the size of the limit
+    for depth in (200, 300):
+        cfg = _cfg0(max_depth=depth, drop_oldest=True)
+        now = BASE + rng.randrange(1000) * SEC
+        ops = []
+        i = 0
+        while i < depth:
+            k = min(100, depth - i)
+            now += MS
+            ops.append({"op": "enqueue_batch", "now": now, "enq": [_enq("F%04d" % (i + j), body=3, recv=now - (depth - i - j) * SEC) for j in range(k)]})
+            i += k
+        now += MS
+        ops.append({"op": "dequeue", "now": now, "route": "", "target": "", "batch": 2, "ttl": 600 * SEC, "snap": True})
+        for j in range(3):
+            now += MS
+            ops.append({"op": "enqueue", "now": now, "enq": [_enq("N%d" % j, body=4 + j)], "snap": True})
+        now += MS
+        ops.append({"op": "enqueue_batch", "now": now, "enq": [_enq("NB0", body=8), _enq("NB1", body=9)], "snap": True})
+        ops.append({"op": "stats", "now": now, "snap": True})
+        hs.append({"cfg": cfg, "ops": ops, "snap_every": 1000, "c13_ok": True})
     return hs
